@@ -79,7 +79,7 @@ class Geometry(object):
         pal = 4 ** (k // 2) if k % 2 == 0 else 0
         return (4 ** k - pal) // 2
 
-    def case(self, rng, nmods, tmin=2, tmax=9, bmin=2, bmax=8, pmax=6):
+    def case(self, rng, nmods, tmin=2, tmax=9, bmin=2, bmax=8, pmax=6, rc_close=False):
         """A complete assembly: vector + nmods chained modules; returns dict or None."""
         if nmods + 1 > self.capacity():
             return None
@@ -88,6 +88,12 @@ class Geometry(object):
             ovs = self.overhangs(nmods + 1, rng, alpha)
             if ovs is None:
                 return None
+            if rc_close:
+                # the vector's upstream overhang (where the chain ends) is the reverse complement of a module's
+                # upstream overhang: legal - only two MODULE starts may not be reverse complements of each other
+                ovs[-1] = dna.rc(ovs[rng.randrange(nmods)])
+                if len(set(ovs)) != len(ovs):
+                    continue
             bbv = rnd(rng.randint(bmin, bmax), rng, alpha)
             ph = rnd(rng.randint(0, pmax), rng, alpha)
             vs = self.vector(ovs[0], ovs[-1], ph, bbv, rng)
